@@ -561,10 +561,11 @@ static void run_plan(const world_t *w, const plan_t *p, long long index, int tra
     { uint64_t h = 0; int q; for (q = 0; q < NCFG; q++) h = fnv1a(h, p->cfg[q]); g_cmp_mag = (h >> 17) % 8 < 4 ? 0 : (unsigned)((h >> 17) % 4); }
     g_inlib = 0; g_trap_armed = 0; g_aborted = 0;
     arm_watchdog(20);
-    { static unsigned far0; far0 = g_far_placed;
+    { static unsigned far0, reu0; far0 = g_far_placed; reu0 = g_reused;
     if (_setjmp(g_run_jmp) == 0) {
         w->exec(p);
     }
+    if (g_reused != reu0) probe_dyn("freed_block_handed_out_again");
     if (g_far_placed - far0 >= 2) probe_dyn(p->cfg[CF_FAR] == 1 ? "elements_2^32_bytes_apart" : "elements_3x2^31_bytes_apart"); }
     g_inlib = 0; g_trap_armed = 0;
     g_atomic_hook = NULL; g_yield_hook = NULL; g_sched_point = NULL; g_free_hook = NULL; g_fiber_escape = NULL; g_abort_in_fiber = NULL;
